@@ -142,7 +142,7 @@ def build(case):
         flows.append(scen.Flow("quic", conn, cap.Ends(0), 0, scen.quic_packets(conn, 0)))
     elif sh == "ch_overlap":
         # the ClientHello arrives in three Initial packets out of order, the pieces overlap (retransmission with other boundaries)
-        flows.append(scen.quic_flow({"ch_split": {"cuts": (50, 150), "order": (0, 2, 1), "packets": True, "overlap": 60}}, seed, 0))
+        flows.append(scen.quic_flow({"ch_split": {"cuts": (50, 150), "order": (0, 2, 1), "packets": True, "overlap": 10}}, seed, 0))
     elif sh == "tls_resumed_interleaved":
         # connection A is opened first (its ClientHello leads the capture) but everything else of it comes after connection B,
         # which resumes A's session (same master secret, abbreviated handshake) and is complete by then
